@@ -89,11 +89,14 @@ where
             write!(result, "{start},{second_processor_id}")
                 .expect("writing to a String is infallible");
         } else {
+            // The last item is `start + (len - 1)`, in that order: `start + len` may lie one past
+            // the end of the item range when the group ends at the largest representable item.
             let last_processor_id = start
-                .checked_add(len)
-                .expect("overflow impossible unless we far exceed any realistic processor ID range")
-                .checked_sub(1)
-                .expect("cannot underflow because len is NonZero");
+                .checked_add(
+                    len.checked_sub(1)
+                        .expect("cannot underflow because len is NonZero"),
+                )
+                .expect("cannot overflow because the last item of the group is an item we were given");
 
             write!(result, "{start}-{last_processor_id}")
                 .expect("writing to a String is infallible");
